@@ -20,6 +20,11 @@ CLAIMED = {
   "Trusted: go/ssa, the gosym interpreter and its scheduler (switches only at yield/go/exit/blocking points), z3. Outside the claim: more threads or preemptions than the bound; the real file system behind the stub directories; clean_runner.go is covered by the same IdleInvoker harness only.",
   "SMT-based symbolic execution of go/ssa with explored goroutine schedules (bounded preemptions), native schedule replay of counterexamples",
   "DESIGN.md §4 C12"),
+ "C11": (
+  "Bounded symbolic model checking of the real code with time as the symbolic variable: SuspendableClock.Suspend/Resume/getTotalUnsuspended* one step from an arbitrary valid accounting state (covers every nesting/overlap history by induction), and the real NewContextWithTimeout goroutine/select loop driven by up to 3 (quick) / 5 (thorough) events (suspend, resume, base timer firing at an arbitrary instant >= its deadline, base-context expiry) with all instants, the timeout, the maximum compensation and the threshold symbolic 64-bit values. Assertions: base context gets timeout+maximum compensation; DeadlineExceeded never before the unsuspended budget (minus threshold) is used; re-arm for exactly the remaining budget; reported virtual duration equals the unsuspended time; cancellation passes the base error on and stops the timer; no lock left held.",
+  "Trusted: go/ssa, gosym interpreter + scheduler, the time.Time model (instants as 64-bit nanoseconds, no saturation; instants < 2^40 ns), z3. Outside the claim: NewTimer/NewTicker variants, the runner's reaction to cancellation and the DEADLINE_EXCEEDED mapping in local_build_executor.go, more events than the bound.",
+  "SMT-based symbolic execution of go/ssa with symbolic time (z3), inductive step + bounded event sequences, native replay",
+  "DESIGN.md §4 C11"),
 }
 
 PENDING_REASON = "check not registered yet (framework under construction; see DESIGN.md §6 build order)"
